@@ -3215,7 +3215,9 @@ static Type check_statement_impl(TypeChecker *tc, ASTNode *stmt) {
             
             /* Special handling for function types - need to check signatures match */
             /* Also handle case where value_type is TYPE_INT (function-typed parameter placeholder) */
-            if (declared_type == TYPE_FUNCTION && (value_type == TYPE_FUNCTION || value_type == TYPE_INT)) {
+            if (declared_type == TYPE_FUNCTION &&
+                (value_type == TYPE_FUNCTION ||
+                 (value_type == TYPE_INT && stmt->as.let.value->type == AST_CALL))) {
                 /* Both are function types - check if signatures match */
                 FunctionSignature *declared_sig = stmt->as.let.fn_sig;
                 FunctionSignature *value_sig = NULL;
